@@ -323,43 +323,41 @@ Definition first_wildcard_pos (l : bytes) : option nat := find_byteset glob_char
 
 Definition NEGATIVE : N := 8.
 
+(* parse::pattern after the `may_alter` block: [m0] is the mode so far *)
+Definition parse_tail (m0 : N) (pat0 : bytes) : option pattern :=
+  if forallb is_whitespace pat0 then None
+  else
+    let '(m1, pat1) := match pat0 with
+                       | c :: r => if beqb c cSLASH then (m0 + ABSOLUTE, r) else (m0, pat0)
+                       | [] => (m0, pat0)
+                       end in
+    let '(m2, pat2) := match pat1 with
+                       | [] => (m1, pat1)
+                       | _ => if beqb (last_byte pat1) cSLASH then (m1 + MUST_BE_DIR, removelast pat1)
+                              else (m1, pat1)
+                       end in
+    let m3 := if has_slash pat2 then m2 else m2 + NO_SUB_DIR in
+    let m4 := match pat2 with
+              | c :: r => if beqb c cSTAR && match first_wildcard_pos r with None => true | Some _ => false end
+                          then m3 + ENDS_WITH else m3
+              | [] => m3
+              end in
+    Some {| ptext := pat2; pmode := m4; pfwp := first_wildcard_pos pat2 |}.
+
 (* parse::pattern(pat, may_alter) *)
 Definition parse_pattern (may_alter : bool) (pat : bytes) : option pattern :=
   match pat with
   | [] => None
-  | _ =>
-      let '(m0, pat0) :=
-        if may_alter then
-          match pat with
-          | c :: r =>
-              if beqb c cBANG then (NEGATIVE, r)
-              else if beqb c cBSL then
-                match r with
-                | s :: _ => if beqb s cBANG || beqb s x23 then (0, r) else (0, pat)
-                | [] => (0, pat)
-                end
-              else (0, pat)
-          | [] => (0, pat)
+  | c :: r =>
+      if may_alter then
+        if beqb c cBANG then parse_tail NEGATIVE r
+        else if beqb c cBSL then
+          match r with
+          | s :: _ => if beqb s cBANG || beqb s x23 then parse_tail 0 r else parse_tail 0 pat
+          | [] => parse_tail 0 pat
           end
-        else (0, pat) in
-      if forallb is_whitespace pat0 then None
-      else
-        let '(m1, pat1) := match pat0 with
-                           | c :: r => if beqb c cSLASH then (m0 + ABSOLUTE, r) else (m0, pat0)
-                           | [] => (m0, pat0)
-                           end in
-        let '(m2, pat2) := match pat1 with
-                           | [] => (m1, pat1)
-                           | _ => if beqb (last_byte pat1) cSLASH then (m1 + MUST_BE_DIR, removelast pat1)
-                                  else (m1, pat1)
-                           end in
-        let m3 := if has_slash pat2 then m2 else m2 + NO_SUB_DIR in
-        let m4 := match pat2 with
-                  | c :: r => if beqb c cSTAR && match first_wildcard_pos r with None => true | Some _ => false end
-                              then m3 + ENDS_WITH else m3
-                  | [] => m3
-                  end in
-        Some {| ptext := pat2; pmode := m4; pfwp := first_wildcard_pos pat2 |}
+        else parse_tail 0 pat
+      else parse_tail 0 pat
   end.
 
 Definition has_flag (m f : N) : bool := negb (N.eqb (N.land m f) 0).
